@@ -333,4 +333,40 @@ PROPS["C18"] = {
     "assumptions": ["H-json: duplicate member names and number syntax are resolved by the library"],
 }
 
+def nt_c06(lhs, impl):
+    f = lhs.split(" ")
+    if f[0] == "sshfile":
+        data = _hexbytes(f[2])
+        lines = data.split(b"\n")
+        pat = "".join("b" if not l.strip() else ("c" if l.strip().startswith(b"#") else "k") for l in lines[:12])
+        return (f[0], f[1], f[4], pat, b"\r\n" in data, data.endswith(b"\n"), impl[:3])
+    n = f[3] if len(f) > 3 else "?"
+    return (f[0], n, len(f[1]) // 2048, impl[:3], hash(tuple(f[4:9])) % 97)
+
+PROPS["C06"] = {
+    "modules": ["WhatIs.Props.C06"],
+    "theorems": ["WhatIs.C06.ssh_lists_all", "WhatIs.C06.ssh_bad_line_fails", "WhatIs.C06.pem_blocks_all",
+                 "WhatIs.C06.pem_file_shape", "WhatIs.C06.jks_lists_all"],
+    "facts": {},
+    "nontrivial": nt_c06,
+    "rule": "authorized_keys / known_hosts files of 1..6 (thorough 40) entries over real keys of every SSH key type with options, "
+            "comments, markers, host patterns and hashed hosts, interleaved with blank / whitespace / comment lines, LF or CRLF, with and "
+            "without a final newline; PEM bundles of 1..6 blocks (certificates, keys of every label in the fixtures, unknown labels, "
+            "corrupt bodies, occasional PGP armor) with text before/between/after and CRLF variants; JKS/JCEKS keystores written by the "
+            "harness with private-key entries (chains 1..3) and trusted-cert entries. Every entry is also inspected on its own and must "
+            "equal its child. distinct non-trivial = distinct (container, n, line-kind pattern, eol, final newline, outcome)",
+    "design_ref": "DESIGN.md §5 C06",
+    "level_text": "Proof: by induction over an UNBOUNDED list of lines/blocks/entries: the SSH file parsers return exactly the descriptions "
+                  "of the key lines in order for every interleaving of blank/comment lines, LF or CRLF, final newline or not, and fail (never "
+                  "drop silently) on an unparsable line; the PEM loop yields exactly the non-PGP blocks in order for any dash-free surrounding "
+                  "text under H-pem; keystores map entries one to one. Tied to the code by a differential run where every child is compared "
+                  "with the same entry inspected alone.",
+    "level_note": "Trusted: Lean kernel; ssh.ParseAuthorizedKey/ParseKnownHosts, pem.Decode, jks-go as oracles (per-line / per-block tables "
+                  "recorded by the harness); hypotheses hcr (library ignores a trailing CR), H-pem (Decode on input starting with a block "
+                  "returns that block and the rest); junk text between PEM blocks is assumed free of '-' in the theorem (explored with dashes).",
+    "technique": "Lean 4 proof (induction over unbounded entry lists with oracle-parameterised decoders) + differential correspondence (child = entry inspected alone)",
+    "trusted_base": ["x/crypto/ssh line parsers, encoding/pem, jks-go (oracles)"],
+    "assumptions": ["per-line parse is a function of the line", "H-pem"],
+}
+
 NOT_CLAIMED = {}
